@@ -57,7 +57,38 @@ def loc_positions(R):
     return M.P(lib.loc_blocks(R), lib.loc_strand(R))
 
 
-def check_tx(res, N, exons, strand, cds, pk):
+def check_overlapping_cds(res, N, exons, strand, cds_blocks):
+    """CDS given as two OVERLAPPING blocks (programmed frameshift): the 5' UTR, the CDS and the 3' UTR must still be
+    disjoint, in that order along the transcript, and cover the exons exactly (as position sets for the CDS)."""
+    genome = GENOME[:N]
+    case = dict(kind="ovlcds", N=N, exons=[list(b) for b in exons], strand=strand, cds_blocks=[list(b) for b in cds_blocks])
+    o = lib.outcome(lib.mk_tx, exons, strand, cds_blocks, [0] * len(cds_blocks), lib.chrom_parent(genome))
+    res.trans()
+    if o[0] != "ok":
+        if not lib.is_documented_exc(o[2]):
+            res.deviation("TranscriptInterval", dict(op="ovlcds-ctor", **case), o[1], "object or documented refusal", sig="ovlcds-ctor")
+        return
+    tx = o[1]
+    res.state(("ovlcds", exons, strand, cds_blocks))
+    res.nontriv(("ovlcds", exons, strand, cds_blocks))
+    Ptx = F.tx_positions(exons, strand)
+    cset = M.S(cds_blocks)
+    first = min(i for i, p in enumerate(Ptx) if p in cset)
+    last = max(i for i, p in enumerate(Ptx) if p in cset)
+    for name, fn, E in (("get_5p_interval", tx.get_5p_interval, Ptx[:first]), ("get_3p_interval", tx.get_3p_interval, Ptx[last + 1 :])):
+        o = lib.outcome(fn)
+        res.trans()
+        c = dict(op=name, **case)
+        res.note(name, "overlapping-cds")
+        if o[0] != "ok":
+            res.deviation(name, c, o[1], E, sig=f"ovlcds-{name}-raises")
+            continue
+        got = loc_positions(o[1]) if len(o[1]) else []
+        if got != E:
+            res.deviation(name, c, got, E, sig=f"ovlcds-{name}")
+
+
+def check_tx(res, N, exons, strand, cds, pk, f0=0):
     genome = GENOME[:N]
     if pk == "chrom":
         parent = lib.chrom_parent(genome)
@@ -67,18 +98,20 @@ def check_tx(res, N, exons, strand, cds, pk):
         parent = lib.chunk_parent(genome, min(s_ for s_, e_ in exons), N)
     else:
         parent = None
-    case0 = dict(N=N, exons=[list(b) for b in exons], strand=strand, cds=list(cds) if cds else None, pk=pk)
+    case0 = dict(N=N, exons=[list(b) for b in exons], strand=strand, cds=list(cds) if cds else None, pk=pk, f0=f0)
     Ptx = F.tx_positions(exons, strand)
     ln = len(Ptx)
     if cds:
         cb = F.cds_blocks_for(exons, strand, cds[0], cds[1])
-        frames = F.consistent_frames_plus_order(cb, strand, 0)
+        if len(F.exons_5to3(cb, strand)[0]) < f0:
+            return
+        frames = F.consistent_frames_plus_order(cb, strand, f0)
         tx = lib.mk_tx(exons, strand, cb, frames, parent)
         Pcds = Ptx[cds[0] : cds[1]]
     else:
         tx = lib.mk_tx(exons, strand, parent=parent)
         Pcds = None
-    res.state(("tx", exons, strand, cds, pk))
+    res.state(("tx", exons, strand, cds, pk, f0))
     if len(exons) > 1 or strand == "-" or (cds and (cds[0] == 0 or cds[1] == ln)):
         res.nontriv(("tx", exons, strand, cds, pk))
     # ---- point conversions -----------------------------------------------------------------------------------
@@ -249,13 +282,30 @@ def run_shard(shard):
                     if pk == "chunk" and exons[0][0] == 0:
                         continue
                     check_tx(res, N, exons, strand, cds, pk)
+                # 5'-incomplete CDS (start frame 1 / 2): coordinates and amino-acid index = CDS position // 3 all the same
+                if cds and (cds[0] == 0 or cds[1] == ln or cds[1] - cds[0] <= 4):
+                    for f0 in (1, 2):
+                        check_tx(res, N, exons, strand, cds, "chrom", f0)
+            # CDS with two overlapping blocks inside the first exon / across the first two exons
+            e0 = exons[0]
+            if e0[1] - e0[0] >= 3:
+                for ov in (1, 2):
+                    mid = e0[0] + 1 + ov
+                    if mid < e0[1]:
+                        check_overlapping_cds(res, N, exons, strand, ((e0[0], mid), (mid - ov, e0[1])))
+                        if e0[1] - e0[0] >= 5 and mid + 1 < e0[1]:
+                            # staggered overlap with UTR bases on both sides inside the exon
+                            check_overlapping_cds(res, N, exons, strand, ((e0[0] + 1, mid + 1), (mid + 1 - ov, e0[1] - 1)))
     res.sample({"exons": [[0, 2], [3, 5]], "strand": "-", "cds": [1, 3], "P_tx": F.tx_positions(((0, 2), (3, 5)), "-")})
     return res
 
 
 def replay(case):
     res = ShardResult()
-    check_tx(res, case["N"], tuple(tuple(b) for b in case["exons"]), case["strand"], tuple(case["cds"]) if case["cds"] else None, case["pk"])
+    if case.get("kind") == "ovlcds":
+        check_overlapping_cds(res, case["N"], tuple(tuple(b) for b in case["exons"]), case["strand"], tuple(tuple(b) for b in case["cds_blocks"]))
+        return res.deviations
+    check_tx(res, case["N"], tuple(tuple(b) for b in case["exons"]), case["strand"], tuple(case["cds"]) if case["cds"] else None, case["pk"], case.get("f0", 0))
     devs = [d for d in res.deviations if d["case"].get("op") == case.get("op")]
     return devs or res.deviations
 
